@@ -374,6 +374,62 @@ func init() {
 		}
 	})
 
+	// c02.junk: every byte value at every token boundary of small well-formed documents, after 0..3 blanks
+	// (the compiled decoders test the first bytes of a blank run by hand before the native lspace takes over,
+	// like advance_ns does) - judged through typed destinations (`valid typed`) and through all the others
+	registerGen("c02.junk", func(g *Gen) {
+		docs := []string{`{"a":1,"b":"x"}`, `[1,2]`, `{"c":[1],"d":{"e":true},"h":{"k":2}}`, `[[1],[2]]`, `7`}
+		if g.Tier == "thorough" {
+			docs = append(docs, `{"k":{"e":false,"x":[3]}}`, `[{"e":true},{"x":[]}]`, `"s"`, `{"j":{"s":"t"},"f":null,"i":[1,2],"l":true,"u":255}`)
+		}
+		blanks := " \t\n\r"
+		isStruct := func(c byte) bool { return strings.IndexByte(",:[]{}", c) >= 0 }
+		n := 0
+		for di, d := range docs {
+			b := []byte(d)
+			for pos := 0; pos <= len(b); pos++ {
+				if !(pos == 0 || pos == len(b) || isStruct(b[pos-1]) || isStruct(b[pos])) {
+					continue
+				}
+				for k := 0; k <= 3; k++ {
+					ws := make([]byte, k)
+					for i := range ws {
+						ws[i] = blanks[(di+pos+i+k)%4]
+						if (pos+di)%3 == 0 {
+							ws[i] = ' '
+						}
+					}
+					for c := 0; c < 256; c++ {
+						// quick tier: all 256 bytes where 1 or 2 blanks precede (the hand-unrolled slots), a spread elsewhere
+						if g.Tier != "thorough" && (k == 0 || k == 3) && (c+pos+di)%4 != 0 {
+							continue
+						}
+						x := make([]byte, 0, len(b)+k+1)
+						x = append(x, b[:pos]...)
+						x = append(x, ws...)
+						x = append(x, byte(c))
+						x = append(x, b[pos:]...)
+						g.Emit("valid", "typed", hexArg(x), "t:junk,k"+strconv.Itoa(k))
+						n++
+						// the same text through every other consuming API (one document in the quick tier)
+						if (di < 1 || g.Tier == "thorough") && (k == 1 || k == 2) {
+							g.Emit("valid", "all", hexArg(x), "t:junk,k"+strconv.Itoa(k))
+						}
+						// junk byte before the blanks as well (blank run after the junk)
+						if g.Tier == "thorough" && k > 0 {
+							y := make([]byte, 0, len(b)+k+1)
+							y = append(y, b[:pos]...)
+							y = append(y, byte(c))
+							y = append(y, ws...)
+							y = append(y, b[pos:]...)
+							g.Emit("valid", "typed", hexArg(y), "t:junk,after,k"+strconv.Itoa(k))
+						}
+					}
+				}
+			}
+		}
+	})
+
 	registerGen("c02.deep", func(g *Gen) {
 		c := &c02Gen{g}
 		rep := strings.Repeat
